@@ -496,6 +496,9 @@ class MultiTrackLargeVocabularyNotelikeTokeniser:
             if self.flag_fuse_velocity:
                 token += f"{TokenisationPrefixes.VELOCITY.value}_{parts.pop(0):03}"
 
+            if token.endswith("-"):
+                token = token[:-1]
+
             self.dictionary[token] = self.dictionary_size
             self._dictionary_size += 1
 
